@@ -1,5 +1,5 @@
 #!/usr/bin/env python3
-"""Rewrites DESIGN.md section 15 (passes per property) from checks.py."""
+"""Rewrites DESIGN.md section 16 (passes per property) from checks.py."""
 import sys
 sys.path.insert(0, '/verif')
 import checks
@@ -22,7 +22,7 @@ for pid in sorted(checks.CHECKS):
         out.append("")
 p = '/verif/DESIGN.md'
 s = open(p).read()
-start = s.index("### C01 (", s.index("## 15. Passes per property"))
+start = s.index("### C01 (", s.index("## 16. Passes per property"))
 s = s[:start] + "\n".join(out)
 open(p, 'w').write(s.rstrip("\n") + "\n")
-print("section 15 rewritten:", sum(len(c["quick"]) + len(c["thorough"]) for c in checks.CHECKS.values()), "passes")
+print("section 16 rewritten:", sum(len(c["quick"]) + len(c["thorough"]) for c in checks.CHECKS.values()), "passes")
